@@ -31,6 +31,28 @@ def runner_c10(tier, seed, workdir):
                             "unordered queries are compared as sets (the property fixes no order for them)"]}
 
 
+def runner_c09(tier, seed, workdir):
+    import c09
+    n = 150 if tier == 'quick' else 2500
+    res = c09.run(seed, n, workdir)
+    violations = []
+    for d in res['disagreements'][:20]:
+        c = d['case']
+        opd = c['ops'][d['op']] if d['op'] >= 0 else 'start'
+        violations.append({'class': f"{d['backend']}:{list(opd)[0] if isinstance(opd, dict) else opd}",
+                           'detail': f"backend={d['backend']} case {c['id']} op#{d['op']}={opd}: model (proved: acknowledged / acted-on messages stay silent, retries within the limit, error rows silent) gives {short(d['model'])}, implementation gives {short(d['impl'])}",
+                           'case': {'kind': 'retry', 'backend': d['backend'], 'case': dict(c, ops=c['ops'][:d['op'] + 1]), 'op': d['op'], 'expected': d['model'], 'observed': d['impl']}})
+    st = res['stats']
+    cov = {'evaluations': st['ops'], 'distinct_nontrivial': st['redeliveries'],
+           'rule': "1..4 messages on an acknowledging channel x histories (<= 24 ops) of tick(300..5000 ms) / ack / action / redo / clear, retry limit 0..3, interval 1 s, virtual clock, both store backends; non-trivial = a redelivery happened (counted per delivery); deliveries to different messages within one tick are compared as a multiset",
+           'traces_validated_against_impl': st['traces_validated_against_impl'], 'input_distribution': st,
+           'samples': res['cases'][:2]}
+    return {'cov': cov, 'violations': violations,
+            'assumptions': ["the tokio interval that produces ticks is replaced by harness-issued ticks on a virtual clock",
+                            "the tick's selection query is answered by the store as the filter reads (C10)",
+                            "message ids are unique (nanoid)"]}
+
+
 def classify_c10(d):
     op = d['case']['ops'][d['op']]
     return f"{d['backend']}:{op['op']}"
@@ -72,7 +94,7 @@ def engine_runner(prop):
     return run
 
 
-RUNNERS = {'C10': runner_c10}
+RUNNERS = {'C10': runner_c10, 'C09': runner_c09}
 for _p in ('C01', 'C02', 'C03', 'C05', 'C08', 'C19'):
     RUNNERS[_p] = engine_runner(_p)
 
@@ -154,6 +176,14 @@ def replay(prop, path):
         import c10
         common.ocaml_build(); common.harness_build()
         r = c10.run_cases([case['case']], c10.schemas(), workdir, backends=(case['backend'],))
+        for d in r['disagreements']:
+            print(f"op#{d['op']} model={short(d['model'])} impl={short(d['impl'])}")
+        print("REPRODUCED" if r['disagreements'] else "NOT-REPRODUCED")
+        return 1 if r['disagreements'] else 0
+    if case.get('kind') == 'retry':
+        import c09
+        common.ocaml_build(); common.harness_build()
+        r = c09.run_cases([case['case']], workdir, backends=(case['backend'],))
         for d in r['disagreements']:
             print(f"op#{d['op']} model={short(d['model'])} impl={short(d['impl'])}")
         print("REPRODUCED" if r['disagreements'] else "NOT-REPRODUCED")
